@@ -66,6 +66,28 @@ func c11Rules(p *core.Prog, r *core.Run) {
 	lt := normTokens(builderTokens(p, list, newBuilder(list), nil, 0))
 	okL := strings.HasPrefix(lt, "p16{ loop{ bytes:") && strings.HasSuffix(lt, "} }") && strings.Count(lt, "bytes:") == 1 && !strings.Contains(lt, "u16:")
 	r.Check("C11.GRAMMAR", "ConfigList:grammar", okL, p.Pos(list.Pos()), "ConfigList emits ECHConfig<..2^16-1> as a builder length-prefixed block (overflow is an error, not a wrapped length): %s", lt)
+	// what the encoders return is what their builder holds: no way out hands
+	// back something else (nothing, for an empty list, say) as a success
+	for _, fn := range []*ssa.Function{list, bytesFn} {
+		for i, ret := range core.Returns(fn) {
+			if len(ret.Results) != 2 {
+				continue
+			}
+			v := p.X(ret.Results[0])
+			fromBuilder := v.Op == "ext" && v.Name == "#0" && v.Args[0].Op == "call" && v.Args[0].Name == "(*cryptobyte.Builder).Bytes"
+			failed := !lastResultNil(ret)
+			if ee := p.X(retErr(ret)); failed && ee.Op == "ext" {
+				// the builder's own error, handed on: only when it was seen to be non-nil
+				failed = false
+				for _, f := range p.Facts(ret.Block()) {
+					if f.Op == "!=" && f.R != nil && f.R.Name == "nil" && f.L.String() == ee.String() {
+						failed = true
+					}
+				}
+			}
+			r.Check("C11.GRAMMAR", fmt.Sprintf("%s:returns-encoding#%d", p.FuncName(fn), i), fromBuilder || failed, p.InstrPos(ret), "%s returns its builder's bytes, or an error: %s", p.FuncName(fn), short(v))
+		}
+	}
 	// parser of the list
 	var root ssa.Value
 	var first token.Pos
